@@ -33,6 +33,13 @@ def step (st : State) (line : String) : State × String :=
     (st, match impl with
       | ["OK"] => "SKIP || HOLDS"
       | _ => "SKIP || FAILS implementation-runs-differ")
+  | "INITB" :: args => (st, handleInitB args impl)
+  | "LOADF" :: _ =>
+    -- foreign formats and auto-detection: outcome of the real loader in a child process (C17)
+    (st, match impl with
+      | "PANIC" :: _ => "SKIP || FAILS panic"
+      | "CRASH" :: _ => "SKIP || FAILS crash"
+      | _ => "SKIP || HOLDS")
   | "DESER" :: args => (st, handleDeser args impl)
   | "TODEF" :: args => (st, handleToDef args impl)
   | "REF9" :: args => (st, handleEncV "9" st args impl)
